@@ -11,6 +11,7 @@ import (
 	"go/types"
 	"sort"
 	"strings"
+	"sync"
 
 	"golang.org/x/tools/go/packages"
 )
@@ -29,6 +30,7 @@ type Oblig struct {
 	Res     *SolveResult
 	Claimed bool
 	Note    string
+	Soft    bool // informational (e.g. reachability of a return): never fails the check
 }
 
 type State struct {
@@ -155,14 +157,46 @@ func (vc *VC) oblige(st *State, kind string, n ast.Node, anchor string, goal *Te
 	return o
 }
 
-func (vc *VC) cover(st *State, n ast.Node, anchor string) {
+func (vc *VC) cover(st *State, n ast.Node, anchor string) *Oblig {
 	o := &Oblig{Name: vc.oblName("cover", n, anchor), Kind: "cover", Unit: vc.unit, NLog: len(vc.log), PC: st.pc, Goal: nil, Cover: true, vc: vc}
 	vc.obls = append(vc.obls, o)
+	return o
+}
+
+var quantMemo = map[int]bool{}
+var quantMu sync.Mutex
+
+func hasQuant(t *Term) bool {
+	quantMu.Lock()
+	defer quantMu.Unlock()
+	return hasQuantRec(t)
+}
+
+func hasQuantRec(t *Term) bool {
+	if v, ok := quantMemo[t.id]; ok {
+		return v
+	}
+	r := t.Op == "forall" || t.Op == "exists"
+	if !r {
+		for _, a := range t.Args {
+			if hasQuantRec(a) {
+				r = true
+				break
+			}
+		}
+	}
+	quantMemo[t.id] = r
+	return r
 }
 
 func (o *Oblig) query() *Query {
 	q := &Query{Cover: o.Cover}
-	q.Assumes = append(q.Assumes, o.vc.log[:o.NLog]...)
+	for _, a := range o.vc.log[:o.NLog] {
+		if o.Cover && hasQuant(a) {
+			continue // covers are satisfiability checks: quantified facts are dropped (solvers answer unknown on them)
+		}
+		q.Assumes = append(q.Assumes, a)
+	}
 	q.Assumes = append(q.Assumes, o.Extra...)
 	q.Assumes = append(q.Assumes, o.PC)
 	q.Goal = o.Goal
